@@ -41,7 +41,7 @@ def contracts():
     # what the composite specs hold is what they were given: constructors, and the copy-on-write builders of Invoke (shared with C17)
     from contracts import X_ctor, C17
     cs += common.shared(X_ctor, ['core.Pipe.__init__', 'core.Val.__init__', 'core.Spec.__init__', 'core.Ref.__init__', 'core.Auto.__init__', 'core.Fill.__init__',
-                                 'core.Invoke.__init__'])
+                                 'core.Invoke.__init__', 'core._is_spec'])
     cs += common.shared(C17, ['core.Invoke.constants', 'core.Invoke.specs', 'core.Invoke.star'])
     # Call arguments and Coalesce defaults are argument-evaluated with a fresh valuator per evaluation (shared with C08)
     from contracts import C08
